@@ -21,6 +21,17 @@ YieldT = tuple_sort([OpT, R])             # (operation, score_delta)
 PLUS, MINUS, FLIP = str_const("+"), str_const("-"), str_const("flip")
 
 
+# trigger function (ghost, identically true): `complete.*` below are instantiated exactly where a candidate move is named
+Cand = z3.Function("c11_candidate", Atom, Atom, Atom, R, B)
+
+
+def cand_axiom(ex):
+    if not getattr(ex, "_c11_cand", None) is ex.axioms:
+        X, Y, k, d = fresh("X", Atom), fresh("Y", Atom), fresh("k", Atom), fresh("d", R)
+        ex.axioms.append(z3.ForAll([X, Y, k, d], Cand(X, Y, k, d)))
+        ex._c11_cand = ex.axioms
+
+
 class LegalOperations(Contract):
     file = "pgmpy/estimators/HillClimbSearch.py"
     qual = "HillClimbSearch._legal_operations"
@@ -70,9 +81,9 @@ class LegalOperations(Contract):
             "sound.remove.delta": z3.ForAll(q, z3.Implies(z3.And(Y_[t], kind == MINUS), L["rem_delta"])),
             "sound.flip.legal": z3.ForAll(q, z3.Implies(z3.And(Y_[t], kind == FLIP), L["flip_legal"])),
             "sound.flip.delta": z3.ForAll(q, z3.Implies(z3.And(Y_[t], kind == FLIP), L["flip_delta"])),
-            "complete.add": z3.ForAll(q, z3.Implies(z3.And(kind == PLUS, L["add_legal"], L["add_delta"]), Y_[t])),
-            "complete.remove": z3.ForAll(q, z3.Implies(z3.And(kind == MINUS, L["rem_legal"], L["rem_delta"]), Y_[t])),
-            "complete.flip": z3.ForAll(q, z3.Implies(z3.And(kind == FLIP, L["flip_legal"], L["flip_delta"]), Y_[t])),
+            "complete.add": z3.ForAll(q, z3.Implies(z3.And(kind == PLUS, L["add_legal"], L["add_delta"]), Y_[t]), patterns=[Cand(*q)]),
+            "complete.remove": z3.ForAll(q, z3.Implies(z3.And(kind == MINUS, L["rem_legal"], L["rem_delta"]), Y_[t]), patterns=[Cand(*q)]),
+            "complete.flip": z3.ForAll(q, z3.Implies(z3.And(kind == FLIP, L["flip_legal"], L["flip_delta"]), Y_[t]), patterns=[Cand(*q)]),
             "frame": graph_unchanged(g, old),
         }
 
@@ -81,6 +92,7 @@ def legal_parts(ex, st, E, V, tabu, black, white, fixed, mx, score, structure_sc
     """the C11 move relation over the edge relation E: legality and score delta of ("+"|"-"|"flip", (X, Y)), as formulas over the
     bound variables q = [X, Y, kind, delta];  t = ((kind, (X, Y)), delta)"""
     from vf.pyvc.engine import BoundMethod
+    cand_axiom(ex)
 
     def opaque(f):   # `score.local_score` of an object whose methods are declared opaque
         if isinstance(f, BoundMethod) and isinstance(f.recv, Obj) and f.name in f.recv.fields.get("__opaque__", {}):
@@ -128,6 +140,7 @@ class HillClimbEstimate(Contract):
         (legal as in _legal_operations with an empty tabu list) improves the score by epsilon or more."""
     file = "pgmpy/estimators/HillClimbSearch.py"
     qual = "HillClimbSearch.estimate"
+    edge_lemmas = True   # the networkx add_edge / remove_edge models add their path lemmas (instances of the induction schema)
 
     def variants(self, ex):
         for sd in ("none", "dag"):
@@ -157,6 +170,10 @@ class HillClimbEstimate(Contract):
             parts += [wf_graph(g), ex.lib.theory(ex).acyclic(g.fields["@E"])]
         if args["tabu_length"].z.decl().kind() == z3.Z3_OP_UNINTERPRETED:
             parts.append(args["tabu_length"].z >= 0)
+        # fixed edges join variables of the data set (an unknown endpoint would be added to the graph as a new node)
+        V, fixed = args["self"].fields["variables"].mem, args["fixed_edges"].mem
+        a, b = fresh("a", Atom), fresh("b", Atom)
+        parts.append(z3.ForAll([a, b], z3.Implies(fixed[PairAA.mk(a, b)], z3.And(V[a], V[b]))))
         return z3.And(*parts) if parts else z3.BoolVal(True)
 
     def snapshot(self, ex, st, args):
@@ -177,8 +194,7 @@ class HillClimbEstimate(Contract):
             ex.axioms.append(z3.ForAll([a, b], z3.Not(none[a, b])))
         E0 = g.fields["@E"] if isinstance(g, Obj) else none
         ex.axioms.append(z3.ForAll([a, b], fin[a, b] == z3.Or(E0[a, b], fixed[PairAA.mk(a, b)])))
-        if isinstance(g, Obj):
-            ex.axioms.append(th.induct_rel(E0, lambda p, q: th.path(fin)(p, q)))
+        th.watch_rel(fin)
         conds = [z3.Not(th.acyclic(fin))]
         if isinstance(g, Obj):
             conds.append(z3.Exists([x], V[x] != N_(g, x)))
@@ -228,9 +244,10 @@ class HillClimbEstimate(Contract):
                             args["white_list"].mem, fixed, args["max_indegree"].z, score["local_score"], score["structure_prior_ratio"])
             eps = args["epsilon"].z
             q, delta = L["q"], L["delta"]
-            out["local-optimum.add"] = z3.ForAll(q, z3.Implies(z3.And(L["kind"] == PLUS, L["add_legal"], L["add_delta"]), delta < eps))
-            out["local-optimum.remove"] = z3.ForAll(q, z3.Implies(z3.And(L["kind"] == MINUS, L["rem_legal"], L["rem_delta"]), delta < eps))
-            out["local-optimum.flip"] = z3.ForAll(q, z3.Implies(z3.And(L["kind"] == FLIP, L["flip_legal"], L["flip_delta"]), delta < eps))
+            c = Cand(*q)   # identically true (axiom); names the candidate for the instantiation of the callee's completeness clauses
+            out["local-optimum.add"] = z3.ForAll(q, z3.Implies(z3.And(c, L["kind"] == PLUS, L["add_legal"], L["add_delta"]), delta < eps))
+            out["local-optimum.remove"] = z3.ForAll(q, z3.Implies(z3.And(c, L["kind"] == MINUS, L["rem_legal"], L["rem_delta"]), delta < eps))
+            out["local-optimum.flip"] = z3.ForAll(q, z3.Implies(z3.And(c, L["kind"] == FLIP, L["flip_legal"], L["flip_delta"]), delta < eps))
         return out
 
 
